@@ -209,6 +209,11 @@ pub fn check(case: &Case, p: &mut Probe) -> Check {
     };
     for (i, op) in case.ops.iter().enumerate() {
         let step = i + 1;
+        // half-way through, every third history continues on a clone of the matrix
+        if i == case.ops.len() / 2 && (case.ops.len() + rows + cols) % 3 == 0 {
+            h = h.clone();
+            p.class("history-continued-on-a-clone");
+        }
         let before = model.clone();
         match op {
             Op::Insert { a, b, existing } => {
